@@ -45,6 +45,19 @@ def gl_session(text, queries):
     return out
 
 
+def go_toplevel_names(src):
+    """names declared at top level of a gofmt-style source file (functions, types, constants, variables; no methods)"""
+    names = set(re.findall(r"^(?:func|type) (\w+)", src, re.M))
+    for m in re.finditer(r"^(?:const|var) ([\w, ]+?)(?: [\w\[\]*.]+)?(?: =.*)?$", src, re.M):
+        names |= {n.strip() for n in m.group(1).split(",")}
+    for m in re.finditer(r"^(?:const|var) \(\n(.*?)^\)", src, re.M | re.S):
+        for l in m.group(1).split("\n"):
+            mm = re.match(r"\t([\w, ]+?)(?: [\w\[\]*.]+)?(?: =.*)?$", l)
+            if mm:
+                names |= {n.strip() for n in mm.group(1).split(",")}
+    return names
+
+
 def uses_of(text, names):
     if not names:
         return {}
@@ -98,9 +111,10 @@ def run_package(files, calls, scratch, keep=False):
         return res
     order = replies[1][6:].split(",") if replies[1] != "names -" else []
     names = set(order)
-    fns = sorted({fn for _, fn, _ in calls})
+    fns = sorted({fn for _, fn, _ in calls} | go_toplevel_names(files["p/p.go"]))
     uses = uses_of(text, names)
     tainted = tainted_by_rejection(uses, names, fns)
+    res["tainted"] = tainted
     # Coq reads the file top to bottom: a definition may only mention same-file definitions above it
     pos = {}
     for i, n in enumerate(order):
